@@ -9,33 +9,51 @@
     (bytes newly exposed by a growing resize are        reallocate), C08_resize (reallocate / in place /
     unspecified)"                                       compact to front / non-owning), C08_append,
                                                         C08_append_self, C08_remove_front, C08_remove_back,
-                                                        C08_reserve, C08_clear
+                                                        C08_reserve, C08_clear; with a source pointer into
+                                                        the Buffer itself: C08_append_at, C08_assign_at,
+                                                        C08_prepend_at
    "whenever it owns its storage one readable zero      C08_terminator (every variable of every reachable
     byte follows the last data byte"                    world: the cell at [stop] is inside the allocation
                                                         of capacity+1 cells and holds 0)
    "it never reads or writes outside its own            C08_memory_safe (histories), C08_memory_safe_step
-    allocation or the attached range"                   (one step from any reachable world): the only error
-                                                        the model can produce is BadArg (an operand variable
-                                                        that does not exist - exactly when the reference
-                                                        object rejects the history).  OutOfBounds (rd/wr
-                                                        outside the allocation, read outside the attached
-                                                        range), WriteForeign (any non-empty write through a
-                                                        pointer into attached memory or a _capacity field),
-                                                        Overlap (Memory::copy on overlapping ranges) and
-                                                        BadState never occur.  Foreign memory has no write
-                                                        operation in the model at all: [BReg r] carries [r]
-                                                        unchanged (C08_no_foreign_write).
+    allocation or the attached range"                   (one step from any reachable world): the model never
+                                                        produces OutOfBounds (rd/wr outside the allocation,
+                                                        read outside the attached range), WriteForeign (any
+                                                        non-empty write through a pointer into attached
+                                                        memory or a _capacity field), Overlap (Memory::copy
+                                                        on overlapping ranges) or BadState.  The two errors
+                                                        left are BadArg, exactly when the reference rejects
+                                                        the history (operand variable missing, a data range
+                                                        of more than max_bytes bytes, a pointer "inside v"
+                                                        that is not), and AllocFail, exactly when the
+                                                        reference says SUnsat (see "sizes").  Foreign memory
+                                                        has no write operation in the model at all: [BReg r]
+                                                        carries [r] unchanged (C08_no_foreign_write).
+   "... for all sizes"                                  every caller-chosen usize is an N (2^64-1 included).
+                                                        C08_allocate: Buffer::allocate(c) returns c+1 cells
+                                                        for c < max_bytes = PTRDIFF_MAX and fails for every
+                                                        other c, c = 2^64-1 included (where c + 1 wraps to 0).
+                                                        C08_allocate_wrapping_refuted: the request the code
+                                                        formed before fixes/C08/10, new char[c + 1], succeeds
+                                                        for c = 2^64-1 with a block of 0 cells, and the
+                                                        terminator write that follows is OutOfBounds.
+                                                        C08_sums_do_not_wrap: the usize sums of append and
+                                                        prepend equal the mathematical sums for every window
+                                                        that satisfies the invariant and every data range
+                                                        that can exist.  C08_remove_clamp: removeFront /
+                                                        removeBack treat every n >= size alike.
    representation invariant                             C08_invariant_initial_and_preserved, C08_rep_invariant
-   (buffer <= start <= end <= buffer + capacity, ...)   (spelled out for every reachable world)
+   (buffer <= start <= end <= buffer + capacity, ...)   (spelled out for every reachable world, with
+                                                        capacity < max_bytes)
 
    Quantifier "for all histories, sizes and front/back offsets, including histories that mix attach
    with owning operations": every theorem is for all op lists / all states satisfying [inv]; op lists
-   contain OAttach, OSwap and the aliasing calls (v = v, v.append(v), v.prepend(v)) without restriction.
+   contain OAttach, OSwap and the aliasing calls (v = v, v.append(v), v.prepend(v), v.append(v + off, n),
+   v.assign(v + off, n), v.prepend(v + off, n)) without restriction.
    Not modelled (see level_note of checks/C08.py): the order of delete[] relative to the copy out of
-   the old storage (AddressSanitizer in the correspondence run), wrap-around of size arithmetic for
-   resize / reserve / constructor arguments near 2^64 (sizes are [nat] here; such a request cannot be
-   allocated).  removeFront / removeBack take every usize: C08_remove_clamp. *)
-From Coq Require Import ZArith List.
+   the old storage (AddressSanitizer in the correspondence run); whether new[] satisfies a request of at
+   most max_bytes bytes (the model says yes). *)
+From Coq Require Import ZArith NArith List.
 From Common Require Import ListAux.
 From Buffer Require Import BufferSpec BufferModel BufferProofs.
 Import ListNotations.
@@ -53,25 +71,49 @@ Print Assumptions C08_reachable_inv.
 
 Theorem C08_rep_invariant : forall w b, reachable w -> In b w ->
   match own b with
-  | Some a => wb b = BOwn /\ length a = capf b + 1 /\ start b <= stop b /\ stop b <= capf b
+  | Some a => wb b = BOwn /\ length a = capf b + 1 /\ start b <= stop b /\ stop b <= capf b /\
+              (N.of_nat (capf b) < max_bytes)%N
   | None => capf b = 0 /\
             match wb b with
             | BOwn => False
-            | BReg r => start b <= stop b /\ stop b <= length r
+            | BReg r => start b <= stop b /\ stop b <= length r /\ (N.of_nat (length r) < max_bytes)%N
             | BCap _ => start b = 0 /\ stop b = 0
             end
   end.
 Proof. exact rep_lemma. Qed.
 Print Assumptions C08_rep_invariant.
 
+(* ---- sizes: the allocation request, sums in usize arithmetic ------------------------------------- *)
+
+(* Buffer::allocate(capacity) of the repaired code: capacity + 1 cells whenever that fits into an
+   object, a failed allocation for every other capacity - also for 2^64-1, where capacity + 1 is 0 *)
+Theorem C08_allocate : forall c,
+  ((c < max_bytes)%N -> allocate c = Ok (new_array (N.to_nat c + 1))) /\
+  ((max_bytes <= c)%N -> allocate c = Err AllocFail).
+Proof. exact (fun c => conj (allocate_ok c) (allocate_fail c)). Qed.
+Print Assumptions C08_allocate.
+
+(* new char[capacity + 1] as written before fixes/C08/10: for capacity = 2^64-1 the request is for 0
+   bytes, it succeeds, and the block has no room for the terminator the next statement writes *)
+Theorem C08_allocate_wrapping_refuted :
+  exists c, (max_bytes <= c)%N /\ allocate_wrapping c = Ok [] /\ wr [] 0 [Some 0%Z] = Err OutOfBounds.
+Proof. exact allocate_wrapping_refuted_lemma. Qed.
+Print Assumptions C08_allocate_wrapping_refuted.
+
+Theorem C08_sums_do_not_wrap : forall a b,
+  (N.of_nat a < max_bytes)%N -> (N.of_nat b < max_bytes)%N -> add_usize (N.of_nat a) (N.of_nat b) = N.of_nat (a + b).
+Proof. exact add_usize_small. Qed.
+Print Assumptions C08_sums_do_not_wrap.
+
 (* ---- (1) memory safety -------------------------------------------------------------------------- *)
 
 Theorem C08_memory_safe_step : forall w o e, winv w -> step w o = Err e ->
-  e = BadArg /\ spec_step (map exposed w) o = None.
+  (e = BadArg /\ spec_step (map exposed w) o = SReject) \/ (e = AllocFail /\ spec_step (map exposed w) o = SUnsat).
 Proof. exact step_safe_lemma. Qed.
 Print Assumptions C08_memory_safe_step.
 
-Theorem C08_memory_safe : forall ops e, run [] ops = Err e -> e = BadArg /\ spec_run [] ops = None.
+Theorem C08_memory_safe : forall ops e, run [] ops = Err e ->
+  (e = BadArg /\ spec_run [] ops = SReject) \/ (e = AllocFail /\ spec_run [] ops = SUnsat).
 Proof. exact run_safe_lemma. Qed.
 Print Assumptions C08_memory_safe.
 
@@ -90,68 +132,101 @@ Print Assumptions C08_no_foreign_write.
 
 Theorem C08_refines_queue_step : forall w qs o, winv w -> wref w qs ->
   match spec_step qs o with
-  | Some (qs', a') => exists w' a, step w o = Ok (w', a) /\ winv w' /\ wref w' qs' /\ ans_ref a a'
-  | None => step w o = Err BadArg
+  | SOk (qs', a') => exists w' a, step w o = Ok (w', a) /\ winv w' /\ wref w' qs' /\ ans_ref a a'
+  | SReject => step w o = Err BadArg
+  | SUnsat => step w o = Err AllocFail
   end.
 Proof. exact step_sim_lemma. Qed.
 Print Assumptions C08_refines_queue_step.
 
 Theorem C08_refines_queue : forall ops w qs, winv w -> wref w qs ->
   match spec_run qs ops with
-  | Some (qs', rs') => exists w' rs, run w ops = Ok (w', rs) /\ winv w' /\ wref w' qs' /\ Forall2 ans_ref rs rs'
-  | None => run w ops = Err BadArg
+  | SOk (qs', rs') => exists w' rs, run w ops = Ok (w', rs) /\ winv w' /\ wref w' qs' /\ Forall2 ans_ref rs rs'
+  | SReject => run w ops = Err BadArg
+  | SUnsat => run w ops = Err AllocFail
   end.
 Proof. exact run_sim_lemma. Qed.
 Print Assumptions C08_refines_queue.
 
-(* per method, per branch: from any state satisfying the invariant the call succeeds, re-establishes
-   the invariant and exposes exactly these bytes *)
-Theorem C08_assign : forall b d, inv b -> exists b', assign_ b d = Ok b' /\ inv b' /\ exposed b' = d.
+(* per method, per branch: from any state satisfying the invariant the call either succeeds,
+   re-establishes the invariant and exposes exactly these bytes - or the bytes it needs do not fit
+   into an object and it fails as an allocation *)
+Theorem C08_assign : forall b d, inv b ->
+  if fitsN (N.of_nat (length d)) then exists b', assign_ b d = Ok b' /\ inv b' /\ exposed b' = d
+  else assign_ b d = Err AllocFail.
 Proof. exact assign_ok. Qed.
 Print Assumptions C08_assign.
 
-Theorem C08_prepend : forall b d, inv b -> exists b', prepend_ b d = Ok b' /\ inv b' /\ exposed b' = d ++ exposed b.
+Theorem C08_prepend : forall b d, inv b -> (N.of_nat (length d) < max_bytes)%N ->
+  if fitsN (N.of_nat (length d + size b)) then exists b', prepend_ b d = Ok b' /\ inv b' /\ exposed b' = d ++ exposed b
+  else prepend_ b d = Err AllocFail.
 Proof. exact prepend_ok. Qed.
 Print Assumptions C08_prepend.
 
 Theorem C08_resize : forall b n, inv b ->
-  exists b' t, resize_ b n = Ok b' /\ inv b' /\
-               exposed b' = firstn n (exposed b) ++ t /\ length t = n - size b /\ (owns b' = true \/ n = 0).
+  if fitsN n then
+    exists b', resize_ b n = Ok b' /\
+      exists t, inv b' /\ exposed b' = firstn (N.to_nat n) (exposed b) ++ t /\ length t = N.to_nat n - size b /\
+                (owns b' = true \/ n = 0%N)
+  else resize_ b n = Err AllocFail.
 Proof. exact resize_ok. Qed.
 Print Assumptions C08_resize.
 
-Theorem C08_append : forall b d, inv b -> exists b', append_ b d = Ok b' /\ inv b' /\ exposed b' = exposed b ++ d.
+Theorem C08_append : forall b d, inv b -> (N.of_nat (length d) < max_bytes)%N ->
+  if fitsN (N.of_nat (size b + length d)) then exists b', append_ b d = Ok b' /\ inv b' /\ exposed b' = exposed b ++ d
+  else append_ b d = Err AllocFail.
 Proof. exact append_ok. Qed.
 Print Assumptions C08_append.
 
-Theorem C08_append_self : forall b, inv b -> exists b', append_self b = Ok b' /\ inv b' /\ exposed b' = exposed b ++ exposed b.
+Theorem C08_append_self : forall b, inv b ->
+  if fitsN (N.of_nat (size b + size b)) then exists b', append_self b = Ok b' /\ inv b' /\ exposed b' = exposed b ++ exposed b
+  else append_self b = Err AllocFail.
 Proof. exact append_self_ok. Qed.
 Print Assumptions C08_append_self.
 
+(* the source is [n] bytes at offset [off] inside the Buffer's own window *)
+Theorem C08_append_at : forall b off n, inv b -> off + n <= size b ->
+  if fitsN (N.of_nat (size b + n)) then
+    exists b', append_at b off n = Ok b' /\ inv b' /\ exposed b' = exposed b ++ slice (exposed b) off n
+  else append_at b off n = Err AllocFail.
+Proof. exact append_at_ok. Qed.
+Print Assumptions C08_append_at.
+
+Theorem C08_assign_at : forall b off n, inv b -> off + n <= size b ->
+  if fitsN (N.of_nat n) then exists b', assign_at b off n = Ok b' /\ inv b' /\ exposed b' = slice (exposed b) off n
+  else assign_at b off n = Err AllocFail.
+Proof. exact assign_at_ok. Qed.
+Print Assumptions C08_assign_at.
+
+Theorem C08_prepend_at : forall b off n, inv b -> off + n <= size b ->
+  if fitsN (N.of_nat (n + size b)) then
+    exists b', prepend_at b off n = Ok b' /\ inv b' /\ exposed b' = slice (exposed b) off n ++ exposed b
+  else prepend_at b off n = Err AllocFail.
+Proof. exact prepend_at_ok. Qed.
+Print Assumptions C08_prepend_at.
+
 Theorem C08_remove_front : forall self b n, inv b ->
-  exists b', remove_front self b n = Ok b' /\ inv b' /\ exposed b' = skipn n (exposed b).
+  exists b', remove_front self b n = Ok b' /\ inv b' /\
+             exposed b' = if (N.of_nat (size b) <=? n)%N then [] else skipn (N.to_nat n) (exposed b).
 Proof. exact remove_front_ok. Qed.
 Print Assumptions C08_remove_front.
 
 Theorem C08_remove_back : forall self b n, inv b ->
-  exists b', remove_back self b n = Ok b' /\ inv b' /\ exposed b' = firstn (size b - n) (exposed b).
+  exists b', remove_back self b n = Ok b' /\ inv b' /\
+             exposed b' = if (N.of_nat (size b) <=? n)%N then [] else firstn (size b - N.to_nat n) (exposed b).
 Proof. exact remove_back_ok. Qed.
 Print Assumptions C08_remove_back.
 
 (* removeFront / removeBack with an argument at or beyond the current size: the result does not depend on
-   the argument (model and reference alike).  Sizes are [nat]; the drivers pass an argument above 10^6
-   (e.g. 2^64-1, which the repaired code handles by comparing sizes instead of pointers) as size+1. *)
-Theorem C08_remove_clamp : forall self b n m, size b <= n -> size b <= m ->
+   the argument, up to and including 2^64-1 (the repaired code compares sizes instead of pointers) *)
+Theorem C08_remove_clamp : forall self b n m, (N.of_nat (size b) <= n)%N -> (N.of_nat (size b) <= m)%N ->
   remove_front self b n = remove_front self b m /\ remove_back self b n = remove_back self b m.
 Proof. exact remove_clamp_lemma. Qed.
 Print Assumptions C08_remove_clamp.
 
-Theorem C08_spec_remove_clamp : forall (q : queue) n m, length q <= n -> length q <= m ->
-  skipn n q = skipn m q /\ firstn (length q - n) q = firstn (length q - m) q.
-Proof. exact spec_remove_clamp_lemma. Qed.
-Print Assumptions C08_spec_remove_clamp.
-
-Theorem C08_reserve : forall b c, inv b -> exists b', reserve_ b c = Ok b' /\ inv b' /\ exposed b' = exposed b.
+Theorem C08_reserve : forall b c, inv b ->
+  if fitsN c then exists b', reserve_ b c = Ok b' /\ inv b' /\ exposed b' = exposed b
+  else reserve_ b c = Err AllocFail.
 Proof. exact reserve_ok. Qed.
 Print Assumptions C08_reserve.
 
@@ -174,32 +249,32 @@ Print Assumptions C08_terminator.
    attach, swap and the aliasing calls *)
 Definition ex_ops : list op :=
   [ ONewData [1;2;3]%Z;          (* v0 = "123", capacity 3                                  *)
-    OReserve 0 10;               (* reallocate to capacity 10                                *)
-    ORemoveFront 0 1;            (* head-room 1                                              *)
+    OReserve 0 10%N;               (* reallocate to capacity 10                                *)
+    ORemoveFront 0 1%N;            (* head-room 1                                              *)
     OPrepend 0 [9]%Z;            (* prepend: head-room                          -> 9 2 3      *)
-    ORemoveFront 0 2;            (* head-room 2, "3"                                          *)
+    ORemoveFront 0 2%N;            (* head-room 2, "3"                                          *)
     OPrepend 0 [7;7;7]%Z;        (* prepend: in-place shift                     -> 7 7 7 3    *)
-    ORemoveFront 0 1;            (* start 1                                     -> 7 7 3      *)
-    OResize 0 5;                 (* resize: in place, two unspecified bytes                   *)
-    ORemoveFront 0 3;            (* start 4, size 2                                           *)
-    OResize 0 8;                 (* resize: compact to front                                  *)
-    OResize 0 12;                (* resize: reallocate                                        *)
+    ORemoveFront 0 1%N;            (* start 1                                     -> 7 7 3      *)
+    OResize 0 5%N;                 (* resize: in place, two unspecified bytes                   *)
+    ORemoveFront 0 3%N;            (* start 4, size 2                                           *)
+    OResize 0 8%N;                 (* resize: compact to front                                  *)
+    OResize 0 12%N;                (* resize: reallocate                                        *)
     OAssign 0 [4;5]%Z;
     OPrepend 0 [1;1;1;1;1;1;1;1;1;1;1]%Z;   (* prepend: reallocate (owning)                   *)
     ONew;                        (* v1 default                                                *)
     OAttach 1 [65;66;67]%Z;      (* v1 attached "ABC"                                         *)
-    ORemoveFront 1 1;            (* window moves inside the attached range     -> B C         *)
+    ORemoveFront 1 1%N;            (* window moves inside the attached range     -> B C         *)
     OPrepend 1 [64]%Z;           (* prepend: reallocate from an attached state -> @ B C       *)
     OAttach 1 [70;71]%Z;
     OAppend 1 [72]%Z;            (* append on attached: resize reallocates     -> F G H       *)
     OAttach 1 [80;81]%Z;
-    OResize 1 0;                 (* resize: non-owning                                        *)
+    OResize 1 0%N;                 (* resize: non-owning                                        *)
     OSwap 0 1;
     OAppendB 1 1;                (* b.append(b)                                               *)
     OPrependB 0 1;
     OAsg 0 0;
     OEq 0 1;
-    ORemoveBack 1 100;
+    ORemoveBack 1 usize_max;
     OFree 0 ].
 
 Example ex_run_ok :
@@ -207,7 +282,7 @@ Example ex_run_ok :
                map after_end w = [None; Some (Some 0%Z)].
 Proof. eexists. eexists. vm_compute. repeat split. Qed.
 
-Example ex_spec_accepts : exists qs rs, spec_run [] ex_ops = Some (qs, rs).
+Example ex_spec_accepts : exists qs rs, spec_run [] ex_ops = SOk (qs, rs).
 Proof. eexists. eexists. vm_compute. reflexivity. Qed.
 
 Definition ex_prefix := firstn 13 ex_ops.
@@ -218,12 +293,12 @@ Proof. eexists. eexists. vm_compute. repeat split. Qed.
 
 (* a growing resize exposes bytes the reference leaves unspecified; the model shows stale ones *)
 Example ex_resize_unspecified :
-  spec_run [] (firstn 8 ex_ops) = Some ([ [Some 7; Some 7; Some 3; None; None]%Z ], [None;None;None;None;None;None;None;None]) /\
+  spec_run [] (firstn 8 ex_ops) = SOk ([ [Some 7; Some 7; Some 3; None; None]%Z ], [None;None;None;None;None;None;None;None]) /\
   exists w rs, run [] (firstn 8 ex_ops) = Ok (w, rs) /\ map exposed w = [ [Some 7; Some 7; Some 3; Some 0; None]%Z ].
 Proof. split; [vm_compute; reflexivity|]. eexists. eexists. vm_compute. split; reflexivity. Qed.
 
 (* the error the safety theorem leaves possible does occur, and only for a missing variable *)
-Example ex_badarg : run [] [ONew; OClear 1] = Err BadArg /\ spec_run [] [ONew; OClear 1] = None.
+Example ex_badarg : run [] [ONew; OClear 1] = Err BadArg /\ spec_run [] [ONew; OClear 1] = SReject.
 Proof. vm_compute. split; reflexivity. Qed.
 
 (* the invariant and the terminator are not vacuous: a reachable world with an owning variable with
@@ -244,6 +319,27 @@ Example ex_foreign_write_refused :
 Proof. split; reflexivity. Qed.
 
 Example ex_remove_clamp :
-  remove_back 0 (mkbuf (Some [Some 1; Some 2; Some 0; None]%Z) BOwn 0 2 3) 5 =
+  remove_back 0 (mkbuf (Some [Some 1; Some 2; Some 0; None]%Z) BOwn 0 2 3) usize_max =
   Ok (mkbuf (Some [Some 0; Some 2; Some 0; None]%Z) BOwn 0 0 3).
 Proof. reflexivity. Qed.
+
+(* sizes at the top of usize: resize / reserve / the capacity constructor with 2^64-1 (where capacity + 1
+   wraps), 2^64-2 and 2^63-1 end as failed allocations in model and reference; 2^63-1 is the first
+   capacity that does not fit *)
+Example ex_usize_max :
+  run [] [ONew; OResize 0 usize_max] = Err AllocFail /\ spec_run [] [ONew; OResize 0 usize_max] = SUnsat /\
+  run [] [ONewData [1;2;3]%Z; OReserve 0 usize_max] = Err AllocFail /\
+  run [] [ONewCap usize_max] = Err AllocFail /\ spec_run [] [ONewCap usize_max] = SUnsat /\
+  run [] [ONew; OResize 0 (usize_max - 1)] = Err AllocFail /\
+  run [] [ONew; OResize 0 max_bytes] = Err AllocFail /\
+  allocate usize_max = Err AllocFail /\ allocate_wrapping usize_max = Ok [].
+Proof. vm_compute. repeat split. Qed.
+
+(* a source inside the Buffer itself: append after a reallocating resize, assign with overlap, prepend
+   after the in-place shift *)
+Example ex_inside :
+  exists w rs, run [] [ ONewData [1;2;3]%Z; OAppendAt 0 1 2;       (* 1 2 3 2 3, reallocated             *)
+                        ORemoveFront 0 1%N; OAssignAt 0 1 3;        (* 3 2 3, moved down over itself      *)
+                        OReserve 0 9%N; ORemoveFront 0 1%N; OPrependAt 0 1 1 ]    (* 3 2 3 through head-room *)
+               = Ok (w, rs) /\ map exposed w = [ map (@Some Z) [3;2;3]%Z ] /\ map after_end w = [Some (Some 0%Z)].
+Proof. eexists. eexists. vm_compute. repeat split. Qed.
